@@ -249,7 +249,8 @@ Fixpoint check_amb (fuel : nat) (ic : icpts) (n : node) (pattern : bytes) (nonst
              | [] => Panic (bs "checkAmbiguous:index")
              | s0 :: _ =>
                if is_ambiguous seg s0 then
-                 do rest <- slice_or_panic "checkAmbiguous:slice" pattern (ambiguous_len s0) (length pattern);
+                 (* the text of the first segment itself (AmbiguousLen misses the ':' of {name:}) *)
+                 do rest <- slice_or_panic "checkAmbiguous:slice" pattern (length (sval s0)) (length pattern);
                  do r <- check_amb f ic ch rest true;
                  match r with Some x => Ok (Some x) | None => go c' end
                else go c'
